@@ -875,7 +875,68 @@ def build_T6r(tree):
     return text, span_sha(block)
 
 
+def build_T6s(tree):
+    """`_CombinedPixelTransform.__init__`, "determine how to combine modality, voi and presentation transforms": WHICH of the
+    eight constructions is taken, as a decision function of what was found (modality LUT, real-world map, window, VOI LUT,
+    inversion).  Each arm is recognised by what it builds; 0 = nothing is built here (a real-world map is in force)."""
+    fn = _init(tree)
+    hits = _walk_ifs(fn, lambda n: ast.unparse(n.test) == 'modality_lut is not None and (not has_rwvm)')
+    if len(hits) != 1:
+        raise Unsupported('combination block (if modality_lut is not None and not has_rwvm) not found')
+    top = hits[0]
+    if len(top.orelse) != 1 or not isinstance(top.orelse[0], ast.If) or ast.unparse(top.orelse[0].test) != 'not has_rwvm' or top.orelse[0].orelse:
+        raise Unsupported('combination block: the rescale arm is no longer `elif not has_rwvm`')
+
+    def arm(stmts, marks, code):
+        u = ' '.join(ast.unparse(x) for x in stmts)
+        for m in marks:
+            if m not in u:
+                raise Unsupported(f'combination block: arm {code} no longer contains `{m}`')
+        return ast.parse(f'return {code}').body
+
+    def chain(stmts, codes, marks):
+        ifs = [x for x in stmts if isinstance(x, ast.If) and ast.unparse(x.test) == 'voi_center_width is not None']
+        if len(ifs) != 1:
+            raise Unsupported('combination block: window test not found')
+        w = ifs[0]
+        if len(w.orelse) != 1 or not isinstance(w.orelse[0], ast.If) or ast.unparse(w.orelse[0].test) != 'voi_lut is not None':
+            raise Unsupported('combination block: VOI LUT test no longer follows the window test')
+        v = w.orelse[0]
+        inv = [x for x in v.orelse if isinstance(x, ast.If) and ast.unparse(x.test) == 'invert']
+        if len(inv) != 1:
+            raise Unsupported('combination block: inversion test not found in the arm without VOI transform')
+        return [ast.If(test=w.test, body=arm(w.body, marks[0], codes[0]), orelse=[
+            ast.If(test=v.test, body=arm(v.body, marks[1], codes[1]), orelse=[
+                ast.If(test=inv[0].test, body=arm(inv[0].body, marks[2], codes[2]), orelse=arm(inv[0].orelse, marks[3], codes[3]))])])]
+    lut_arm = chain(top.body, (1, 2, 3, 4),
+                    (['apply_voi_window(', 'array=modality_lut.lut_data'], ['apply_lut(', 'voi_lut.get_scaled_lut_data('],
+                     ['modality_lut.get_inverted_lut_data()'], ['self._effective_lut_data = modality_lut.lut_data']))
+    res_arm = chain(top.orelse[0].body, (5, 6, 7, 8),
+                    (['self._effective_window_center_width ='], ['voi_scaled_lut_data', 'adjusted_first_value'],
+                     ['eff_slope', 'self._effective_slope_intercept ='], ['self._effective_slope_intercept = modality_slope_intercept']))
+    blk = [ast.If(test=top.test, body=lut_arm, orelse=[ast.If(test=top.orelse[0].test, body=res_arm, orelse=ast.parse('return 0').body)])]
+
+    class R(ast.NodeTransformer):
+        def visit_Compare(self, node):
+            u = ast.unparse(node)
+            m = {'modality_lut is not None': 'has_mod_lut', 'voi_center_width is not None': 'has_window', 'voi_lut is not None': 'has_voi_lut'}
+            if u in m:
+                return ast.copy_location(ast.Name(id=m[u], ctx=ast.Load()), node)
+            return node
+    blk = [R().visit(x) for x in blk]
+    for x in blk:
+        ast.fix_missing_locations(x)
+    text = translate_block(blk, 'combineBranch', [('has_mod_lut', 'bool'), ('has_rwvm', 'bool'), ('has_window', 'bool'),
+                                                  ('has_voi_lut', 'bool'), ('invert', 'bool')], {},
+                           doc='`__init__`, combination of the stages found: 1 window applied to the modality LUT entries, 2 VOI LUT composed '
+                               'with the modality LUT, 3 inverted modality LUT, 4 modality LUT alone, 5 window folded through the rescale, '
+                               '6 VOI LUT folded through the rescale, 7 rescale with inversion folded in, 8 rescale alone, 0 nothing (a '
+                               'real-world map is in force)')
+    return text, span_sha([top])
+
+
 TARGETS = {
+    'T6s': {'file': 'image.py', 'build': build_T6s},
     'T6r': {'file': 'image.py', 'build': build_T6r},
     'T6p': {'file': 'image.py', 'build': build_T6p},
     'T6q': {'file': 'image.py', 'build': build_T6q},
